@@ -11,7 +11,7 @@ META = {
                   "peak-to-trough decomposition and the decomposition's own laws (classic max drawdown, recovery only by "
                   "exceeding the peak, one drawdown per running maximum); every curve is emitted with its reference "
                   "drawdowns and replayed into DrawdownGenerator / MaxDrawdownGenerator / MeanDrawdownGenerator and both "
-                  "tear-sheet generators.",
+                  "tear-sheet generators. Trusted: TLC, spec/Rational.tla, the projection functions in harness/src/stats_driver.rs (bins c16/c17/c18), the assumptions listed in the evidence file.",
     "technique": "TLC exhaustive + simulation (Pattern B: exact rationals replayed into the implementation)",
 }
 ASSUMPTIONS = [
@@ -101,11 +101,8 @@ def selftest_trace(ctx, keep):
 def check(ctx):
     ctx.assumptions += ASSUMPTIONS
     ctx.build("c18")
-    if ctx.quick:
-        ctx.tlc_mc(MODULE, "MC_Drawdown.cfg", timeout=900)        # <= 4 points, irregular time steps
-        ctx.tlc_mc(MODULE, "MC_Drawdown_long.cfg", timeout=900)   # all curves of <= 6 points over 1..4
-    else:
-        ctx.tlc_mc(MODULE, "MC_Drawdown_thorough.cfg", timeout=2400)
+    ctx.tlc_actions(MODULE, "MC_Drawdown_small.cfg", ["AddPointAny"])
+    ctx.tlc_mc(MODULE, "MC_Drawdown.cfg" if ctx.quick else "MC_Drawdown_thorough.cfg", timeout=2400, coverage=False)
     # every curve of the bounded model (equal neighbours, recovery exactly to the peak, ...)
     p_t, scn_t = ctx.tlc_gen("Gen_" + MODULE, "GenT_Drawdown.cfg" if ctx.quick else "GenT_Drawdown_thorough.cfg", "all.ndjson", timeout=900)
     # longer random curves, wider values, irregular time steps
